@@ -1428,3 +1428,71 @@ func checkLookaheadSources(c *Ctx, rule string, pk *packages.Package, fd *ast.Fu
 		c.ok(rule, construct, p.Pos(fd.Pos()), "every source of the set the new items' lookaheads range over is FIRST(beta a) of the item being expanded (%d source(s))", nSources)
 	}
 }
+
+// ---- LALR-6 (skips): every pending item with a nonterminal after the dot is expanded ----
+//
+// In Closure, an item may be skipped only because it has nothing to expand (the dot is at the end,
+// or the symbol after it is a terminal). A `continue` (or an enclosing condition around the
+// expansion) that depends on a memo - a set or map consulted with Add/Has/Get/an index - drops the
+// lookaheads that item would have contributed: which of them matter depends on the item's own
+// lookahead and on the nullability of what follows, not on what was expanded before.
+func ruleLALR6skips(c *Ctx, rule string) {
+	p := c.Prog
+	pk, fd := p.FuncDecl("internal/parsergen/lr1", "Closure")
+	if fd == nil {
+		c.unres(rule, "lr1.Closure/no-memo-skips", "", "function not found")
+		return
+	}
+	info := pk.TypesInfo
+	par := parents(fd)
+	// the expansion: the call that adds new items to the result (Add on an ItemSet) inside the loops
+	var sites []ast.Node
+	ast.Inspect(fd.Body, func(n ast.Node) bool {
+		switch x := n.(type) {
+		case *ast.BranchStmt:
+			if x.Tok == token.CONTINUE {
+				sites = append(sites, x)
+			}
+		case *ast.CallExpr:
+			if fn := calleeFunc(info, x); fn != nil && fn.Name() == "Add" && strings.HasSuffix(fullName(fn), "ItemSet.Add") {
+				sites = append(sites, x)
+			}
+		}
+		return true
+	})
+	memoIn := func(e ast.Expr) string {
+		why := ""
+		ast.Inspect(e, func(m ast.Node) bool {
+			switch y := m.(type) {
+			case *ast.CallExpr:
+				if sel, ok := y.Fun.(*ast.SelectorExpr); ok {
+					switch sel.Sel.Name {
+					case "Add", "Has", "Contains", "Get", "Put", "LoadOrStore":
+						// result.Add(newItem) deciding whether the new item is queued is the algorithm itself
+						if fn := calleeFunc(info, y); fn != nil && strings.HasSuffix(fullName(fn), "ItemSet.Add") {
+							return true
+						}
+						why = exprString(y)
+					}
+				}
+			case *ast.IndexExpr:
+				if _, isMap := info.TypeOf(y.X).Underlying().(*types.Map); isMap {
+					why = exprString(y)
+				}
+			}
+			return true
+		})
+		return why
+	}
+	n := 0
+	for _, s := range sites {
+		for _, fct := range pathConds(info, par, s) {
+			n++
+			if why := memoIn(fct.e); why != "" {
+				c.bad(rule, "lr1.Closure/no-memo-skips", p.Pos(s.Pos()), "whether an item is expanded depends on `%s`, a memo of earlier expansions: the lookaheads this item contributes (FIRST of what follows the nonterminal, then the item's own lookahead) are lost when an earlier item with a different continuation was expanded first", truncate(why, 80))
+				return
+			}
+		}
+	}
+	c.ok(rule, "lr1.Closure/no-memo-skips", p.Pos(fd.Pos()), "items are skipped only for having nothing to expand (%d conditions examined): no skip depends on a memo of earlier expansions", n)
+}
